@@ -80,6 +80,22 @@ Theorem C04_block_row_any_width : forall (R : StarRing) (A : linop R) (l : list 
   opeq (comp A (hstack_list R l z)) (hstack_list R (map (fun B => comp A B) l) (comp A z)).
 Proof. exact comp_hstack_list. Qed.
 Print Assumptions C04_block_row_any_width.
+(* an operator matrix of any size (a column of rows) whose blocks are linear adjoint pairs of matching sizes is a linear adjoint pair *)
+Theorem C04_block_matrix_any_size : forall (R : StarRing) (rows : list (list (linop R) * linop R)) (zl : list (linop R)) (z : linop R),
+  let row := fun r : list (linop R) * linop R => hstack_list R (fst r) (snd r) in
+  adjoint_pair z -> wf z -> List.Forall (fun A => adjoint_pair A /\ wf A /\ ran A = ran z) zl ->
+  List.Forall (fun r => adjoint_pair (snd r) /\ wf (snd r) /\ List.Forall (fun A => adjoint_pair A /\ wf A /\ ran A = ran (snd r)) (fst r)
+                        /\ dom (row r) = dom (hstack_list R zl z)) rows ->
+  adjoint_pair (vstack_list R (map row rows) (hstack_list R zl z)) /\ wf (vstack_list R (map row rows) (hstack_list R zl z)).
+Proof.
+  intros R rows zl z row Pz Wz Hzl Hrows.
+  destruct (hstack_list_ok R zl z Hzl Pz Wz) as (PZ & WZ & _).
+  destruct (vstack_list_ok R (map row rows) (hstack_list R zl z)) as (P & W & _); [|exact PZ|exact WZ|split; assumption].
+  apply List.Forall_forall. intros A HA. apply List.in_map_iff in HA. destruct HA as (r & <- & Hr).
+  rewrite List.Forall_forall in Hrows. destruct (Hrows r Hr) as (Ps & Ws & Hf & Hd).
+  destruct (hstack_list_ok R (fst r) (snd r) Hf Ps Ws) as (P1 & W1 & _). split; [exact P1|split; [exact W1|exact Hd]].
+Qed.
+Print Assumptions C04_block_matrix_any_size.
 (* LinearOperatorMatrix.from_diagonal: the block-diagonal operator equals the matrix with zero operators off the diagonal *)
 Theorem C04_block_diagonal : forall (R : StarRing) (A B : linop R),
   opeq (bdiag A B) (vstack (hstack A (zeroop (R:=R) (dom B) (ran A))) (hstack (zeroop (R:=R) (dom A) (ran B)) B)).
